@@ -35,6 +35,8 @@ static struct {
 #define F_DATA  0x1000
 #define F_HOSTILE_STRUCT 0x2000   /* reorder / duplicate / drop packets, wrong designations */
 static unsigned feat;
+static int short_countdown;      /* EACEM triggers: countdown attributes of at most 10 frames */
+static int odd_sub_rate = 12;     /* 1/n of the LOP transmissions carry a random 14 bit subcode; 0 = never */
 
 /* mutation: probability per packet in 1/65536, and intensity */
 static unsigned mut_rate;
@@ -217,8 +219,13 @@ static int gen_eacem(struct vf_rng *r, char *o, int max)
 	int n = 0, k, cs_from = 0;
 	char tmp[300];
 	n += snprintf(tmp + n, sizeof tmp - (size_t)n, "<%s>", urls[vf_below(r, sizeof urls / sizeof urls[0])]);
-	for (k = vf_range(r, 0, 4); k > 0; k--)
-		n += snprintf(tmp + n, sizeof tmp - (size_t)n, "(%s)", attrs[vf_below(r, sizeof attrs / sizeof attrs[0])]);
+	for (k = vf_range(r, 0, 4); k > 0; k--) {
+		const char *at = attrs[vf_below(r, sizeof attrs / sizeof attrs[0])];
+		/* growth accounting over a few seconds of carousel: a trigger that waits 50 s for its fire time is
+		   pending, not leaked; keep the countdowns below one carousel period there */
+		if (short_countdown && (0 == strncmp(at, "c:", 2) || 0 == strncmp(at, "countdown:", 10))) at = vf_chance(r, 1, 2) ? "c:0" : "c:0F10";
+		n += snprintf(tmp + n, sizeof tmp - (size_t)n, "(%s)", at);
+	}
 	if (vf_chance(r, 3, 4)) {
 		unsigned cs = g_trigger_checksum(tmp + cs_from, n - cs_from);
 		if (vf_chance(r, 1, 8)) cs ^= 1u << vf_below(r, 16);
@@ -696,9 +703,11 @@ static void gen_page(struct vf_rng *r, struct spage *s)
 	int sub = 0, mag = (s->pgno >> 8) & 7;
 	if (!mag) mag = 8;
 	if (s->nsub > 0) { sub = 1 + s->next_sub; s->next_sub = (s->next_sub + 1) % s->nsub; }
-	if (s->role == R_LOP && vf_chance(r, 1, 12)) sub = (int)vf_below(r, 0x4000);          /* clock-style / odd subcodes */
+	if (s->role == R_LOP && odd_sub_rate && vf_chance(r, 1, (unsigned)odd_sub_rate)) sub = (int)vf_below(r, 0x4000);          /* clock-style / odd subcodes */
 	if (s->role == R_DATA) sub = (int)vf_below(r, 0x4000) & 0x3F7F;
-	if ((s->role == R_POP || s->role == R_GPOP || s->role == R_DRCS || s->role == R_GDRCS) && s->nsub == 0 && vf_chance(r, 1, 6)) sub = (int)vf_below(r, 16);
+	if ((s->role == R_POP || s->role == R_GPOP || s->role == R_DRCS || s->role == R_GDRCS) && s->nsub == 0 && vf_chance(r, 1, 6)
+	    && (odd_sub_rate || (s->pgno & 15) > 9 || (s->pgno & 0xF0) > 0x90))      /* at a BCD page number this is the Q-oddsub mix, too */
+		sub = (int)vf_below(r, 16);
 	gen_header(r, s, sub, 0);
 	s->sent++;
 	switch (s->role) {
